@@ -14,6 +14,7 @@ def full_addr(h):
 class C09(PropBase):
     id = 'C09'
     partial_passes = 0.25
+    rx_only_passes = 0.4
     lean_modules = ['Isotp.Props.C09']
     theorems = []
     keep_ops = ('layer', 'addr')
